@@ -1,4 +1,5 @@
 import GqlVerif.Props.C11
+import GqlVerif.Proofs.ComposedC11
 open GqlVerif.C11
 #print axioms bsearch_sound
 #print axioms bsearch_complete
@@ -11,3 +12,23 @@ open GqlVerif.C11
 #print axioms wire_is_graphql_name
 #print axioms input_wire_is_graphql_name
 #print axioms oneof_wire_is_graphql_name
+-- composed, on the generator's own functions (Proofs/ComposedC11.lean)
+#print axioms GqlVerif.Composed.inputItem_struct_wires
+#print axioms GqlVerif.Composed.inputItem_oneOf_wires
+#print axioms GqlVerif.Composed.inputItem_wires
+#print axioms GqlVerif.Composed.inputItems_wires
+#print axioms GqlVerif.Composed.variablesItems_wires
+#print axioms GqlVerif.Composed.variablesItems_shape
+#print axioms GqlVerif.Composed.variablesItems_default_names
+#print axioms GqlVerif.Composed.renderField_ok
+#print axioms GqlVerif.Composed.calcFields_wires
+#print axioms GqlVerif.Composed.calcSelection_root_wires
+#print axioms GqlVerif.Composed.responseData_wires
+#print axioms GqlVerif.Composed.responseData_alias
+#print axioms GqlVerif.Composed.fragment_struct_wires
+#print axioms GqlVerif.Composed.calc_wires_mem
+#print axioms GqlVerif.Composed.responseItems_wires_mem
+#print axioms GqlVerif.Composed.fragmentItems_wires_mem
+#print axioms GqlVerif.Composed.calcVariantSels_wires
+#print axioms GqlVerif.Composed.calcVariants_step_wires
+#print axioms GqlVerif.Composed.calcVariants_variant_wires
